@@ -122,8 +122,13 @@ def stStr : PState → String
 def natsStr (l : List Nat) : String :=
   if l.isEmpty then "-" else ";".intercalate (l.map toString)
 
+/-- `buf`: the piece was (possibly) written by this segment: print its buffer length and
+    digest; otherwise only whether it holds a buffer (`+`) — lengths and digests of all pieces
+    are printed by `end`. -/
 def pieceStr (p : Piece) (buf : Bool) : String :=
-  let dl := match p.data with | none => "-" | some (_, d) => toString d.length
+  let dl := match p.data with
+    | none => "-"
+    | some (_, d) => if buf then toString d.length else "+"
   let fv := match p.data with
     | none => "-"
     | some (_, d) => if buf then toString (fnv64 d) else "."
@@ -147,15 +152,27 @@ def errStr : Err → String
   | .mismatch => "mismatch"
 
 /-! ### content: the reference bytes of a torrent are a function of (seed, offset) -/
-def contentByte (seed : Nat) (o : Nat) : UInt8 :=
-  let z0 : UInt64 := UInt64.ofNat seed + (UInt64.ofNat (o / 8) + 1) * 0x9E3779B97F4A7C15
+def contentWord (seed : Nat) (w : Nat) : UInt64 :=
+  let z0 : UInt64 := UInt64.ofNat seed + (UInt64.ofNat w + 1) * 0x9E3779B97F4A7C15
   let z1 := (z0 ^^^ (z0 >>> 30)) * 0xBF58476D1CE4E5B9
   let z2 := (z1 ^^^ (z1 >>> 27)) * 0x94D049BB133111EB
-  let z3 := z2 ^^^ (z2 >>> 31)
-  (z3 >>> (UInt64.ofNat (8 * (o % 8)))).toUInt8 ||| 1
+  z2 ^^^ (z2 >>> 31)
+
+def contentByte (seed : Nat) (o : Nat) : UInt8 :=
+  (contentWord seed (o / 8) >>> (UInt64.ofNat (8 * (o % 8)))).toUInt8 ||| 1
+
+/-- bytes `src … src+k-1` prepended to `acc`, built from the end; `(wi, wv)` caches the
+    current 8-byte word -/
+def contentGo (seed src : Nat) : Nat → Bytes → Nat → UInt64 → Bytes
+  | 0, acc, _, _ => acc
+  | k + 1, acc, wi, wv =>
+    let o := src + k
+    let wi' := o / 8
+    let wv' := if wi' == wi then wv else contentWord seed wi'
+    contentGo seed src k (((wv' >>> (UInt64.ofNat (8 * (o % 8)))).toUInt8 ||| 1) :: acc) wi' wv'
 
 def contentSlice (seed src len : Nat) : Bytes :=
-  (List.range len).map (fun k => contentByte seed (src + k))
+  contentGo seed src len [] ((src + len) / 8 + 1) 0
 
 def xorAt (bs : Bytes) (pos : Nat) (v : UInt8) : Bytes :=
   if pos < bs.length then bs.modify pos (· ^^^ v) else bs
@@ -208,16 +225,16 @@ def resume (d : DState) (pc : Pc) (arg : Option Nat) : Seg :=
     | none => ⟨d, none, "nostore", []⟩
     | some (g, s, _) =>
       match finBegin g s i with
-      | (s', .finHash) => ⟨d.setStore sid s', some (.finHashing sid i h), s!"y:finalise.hashing:{i}", [i]⟩
-      | (s', o) => ⟨d.setStore sid s', none, finRetStr o, [i]⟩
+      | (s', .finHash) => ⟨d.setStore sid s', some (.finHashing sid i h), s!"y:finalise.hashing:{i}", []⟩
+      | (s', o) => ⟨d.setStore sid s', none, finRetStr o, []⟩
   | .finHashing sid i h =>
     match d.store? sid with
     | none => ⟨d, none, "nostore", []⟩
     | some (_, s, _) =>
       match hashRead s i with
-      | (_, .hashed true) => ⟨d, some (.finHashed sid i h), s!"y:finalise.hashed:{i}", [i]⟩
-      | (_, .hashed false) => ⟨d, none, "fault:hasher read a freed or modified buffer", [i]⟩
-      | (_, _) => ⟨d, some (.finHashed sid i h), s!"y:finalise.hashed:{i}", [i]⟩
+      | (_, .hashed true) => ⟨d, some (.finHashed sid i h), s!"y:finalise.hashed:{i}", []⟩
+      | (_, .hashed false) => ⟨d, none, "fault:hasher read a freed or modified buffer", []⟩
+      | (_, _) => ⟨d, some (.finHashed sid i h), s!"y:finalise.hashed:{i}", []⟩
   | .finHashed sid i h =>
     match d.store? sid with
     | none => ⟨d, none, "nostore", []⟩
@@ -259,15 +276,15 @@ def call (d : DState) (sid : Nat) (args : List String) : Option Seg :=
       match s.pieces[i]? with
       | none => pure ⟨d, none, "r:panic index out of range", []⟩
       | some p =>
-        if p.state ≠ .incomplete then pure ⟨d, none, "r:add c=0 cpl=0 e=ok", [i]⟩
-        else pure ⟨d, some (.addPre sid i b blk peer), s!"y:adddata.prelock:{i}", [i]⟩
+        if p.state ≠ .incomplete then pure ⟨d, none, "r:add c=0 cpl=0 e=ok", []⟩
+        else pure ⟨d, some (.addPre sid i b blk peer), s!"y:adddata.prelock:{i}", []⟩
     | ["fin", i, h] => do
       let i ← i.toNat?; let h ← ofHex h
       match s.pieces[i]? with
       | none => pure ⟨d, none, "r:panic index out of range", []⟩
       | some p =>
-        if p.state ≠ .incomplete then pure ⟨d, none, "r:fin done=0 peers=- e=ok", [i]⟩
-        else pure ⟨d, some (.finPre sid i h), s!"y:finalise.prelock:{i}", [i]⟩
+        if p.state ≠ .incomplete then pure ⟨d, none, "r:fin done=0 peers=- e=ok", []⟩
+        else pure ⟨d, some (.finPre sid i h), s!"y:finalise.prelock:{i}", []⟩
     | ["exp", target, now, av] => do
       let target ← target.toInt?; let now ← now.toNat?; let av ← natsOf av
       pure (expContinue d sid (expStart g s target now av) "-" [])
